@@ -887,7 +887,10 @@ fn gen_par(rng: &mut Rng, nthreads: usize, thorough: bool) -> ParCase {
 /// Model request: modules, programs, and a seeded random event schedule for the `Once` cells
 /// (`r m t` request, `f m` finish, `w m t` wake; some junk events that must be no-ops), closed by
 /// a completing suffix.
-fn par_request(case: &ParCase, rng: &mut Rng) -> String {
+/// `failed`: the threads that failed in the run the request describes (empty for a clean run).
+/// Their requests are left out of the schedule - how far a failed thread got is not observable -
+/// and the driver masks what the failure leaves undetermined (GluonModel.ParOnce.undetermined).
+fn par_request(case: &ParCase, rng: &mut Rng, failed: &[usize]) -> String {
     let mut s = String::from("par (mods");
     for m in &case.modules {
         s.push_str(&format!(" ({}", m.c));
@@ -909,10 +912,19 @@ fn par_request(case: &ParCase, rng: &mut Rng) -> String {
         }
         s.push_str(&format!(") {} {} {})", p.alloc, p.reps, role));
     }
+    if !failed.is_empty() {
+        s.push_str(") (failed");
+        for t in failed {
+            s.push_str(&format!(" {}", t));
+        }
+    }
     s.push_str(") (sched");
     // every thread requests every module of the closure of its imports, in a random interleaving
     let mut reqs: Vec<(usize, usize)> = vec![];
     for (t, p) in case.progs.iter().enumerate() {
+        if failed.contains(&t) {
+            continue;
+        }
         for m in case.closure(p) {
             reqs.push((m, t));
         }
@@ -985,6 +997,40 @@ struct ParRun {
     /// (fingerprint, what)
     failures: Vec<(String, String)>,
     collections: u64,
+    /// threads whose result is not the result of the program run alone (all of them if the child
+    /// process hung or died)
+    failed: Vec<usize>,
+    /// per-module body counts of the parallel run (none if the child process hung or died)
+    counts: Option<Vec<u64>>,
+    /// rendered per-thread results (empty if the child process hung or died)
+    results: Vec<String>,
+}
+
+/// What a failing run leaves determined, in the form the driver prints for a request with a
+/// `(failed …)` list: results of failed threads are `(failed)`; the count of a module that only
+/// failed threads requested is `?` (0 or 1: the thread may or may not have got that far).
+fn masked_payload(case: &ParCase, r: &ParRun) -> String {
+    let mut ok_req = vec![false; case.modules.len()];
+    let mut failed_req = vec![false; case.modules.len()];
+    for (t, p) in case.progs.iter().enumerate() {
+        for m in case.closure(p) {
+            if r.failed.contains(&t) { failed_req[m] = true } else { ok_req[m] = true }
+        }
+    }
+    let counts: Vec<String> = (0..case.modules.len())
+        .map(|m| {
+            let c = r.counts.as_ref().map(|c| c[m]);
+            if failed_req[m] && !ok_req[m] && c.map_or(true, |c| c <= 1) {
+                "?".to_string()
+            } else {
+                c.map_or("?".to_string(), |c| c.to_string())
+            }
+        })
+        .collect();
+    let results: Vec<String> = (0..case.progs.len())
+        .map(|t| if r.failed.contains(&t) { "(failed)".to_string() } else { r.results[t].clone() })
+        .collect();
+    format!("(counts {}) (results {})", counts.join(" "), results.join(" "))
 }
 
 fn one_par_run(case: &ParCase, cj: &Value, timeout: Duration) -> ParRun {
@@ -999,6 +1045,9 @@ fn one_par_run(case: &ParCase, cj: &Value, timeout: Duration) -> ParRun {
     let n = case.progs.len();
     let mut failures = vec![];
     let mut collections = 0;
+    let mut failed: Vec<usize> = (0..n).collect();
+    let mut counts = None;
+    let mut results = vec![];
     let payload = match &ex {
         gv::child::Exit::Ok(o) => {
             let v: Value = match serde_json::from_str(o.trim()) {
@@ -1014,7 +1063,7 @@ fn one_par_run(case: &ParCase, cj: &Value, timeout: Duration) -> ParRun {
                     format!("deadlock:parallel-run{}", flags),
                     format!("{} OS threads: {} finished, the others made no end after {} ms (= 25x the time the same programs took one after the other; the schedule is not reproducible, re-run the case several times)", n, v["finished"], v["waited_ms"]),
                 ));
-                return ParRun { payload: "(hang)".to_string(), class: "hang".to_string(), failures, collections: 0 };
+                return ParRun { payload: "(hang)".to_string(), class: "hang".to_string(), failures, collections: 0, failed, counts, results };
             }
             let strs = |x: &Value| -> Vec<String> {
                 x.as_array().unwrap().iter().map(|s| s.as_str().unwrap().to_string()).collect()
@@ -1027,6 +1076,7 @@ fn one_par_run(case: &ParCase, cj: &Value, timeout: Duration) -> ParRun {
             let requested = case.requested();
             // ---- property oracle (no model): results equal solo results; bodies ran once
             let mut any_failed = false;
+            failed.clear();
             for t in 0..n {
                 if solo[t].starts_with("err:") {
                     // a generated program must run when alone: generator/harness problem
@@ -1035,6 +1085,7 @@ fn one_par_run(case: &ParCase, cj: &Value, timeout: Duration) -> ParRun {
                 }
                 if par[t] != solo[t] {
                     any_failed = true;
+                    failed.push(t);
                     let fp = if let Some(m) = par[t].strip_prefix("panic:") {
                         // the panic location identifies the failing code, not the scenario
                         let mut it = m.splitn(3, ':');
@@ -1076,10 +1127,12 @@ fn one_par_run(case: &ParCase, cj: &Value, timeout: Duration) -> ParRun {
                 ));
             }
             collections = v["collections"].as_u64().unwrap_or(0);
+            results = par.iter().map(|r| if r.starts_with("panic:") { "panic".to_string() } else { r.replace(':', " ") }).map(|r| format!("({})", r)).collect();
+            counts = Some(pc.clone());
             format!(
                 "(counts {}) (results {})",
                 pc.iter().map(|c| c.to_string()).collect::<Vec<_>>().join(" "),
-                par.iter().map(|r| if r.starts_with("panic:") { "panic".to_string() } else { r.replace(':', " ") }).map(|r| format!("({})", r)).collect::<Vec<_>>().join(" ")
+                results.join(" ")
             )
         }
         gv::child::Exit::Timeout(_) => {
@@ -1113,7 +1166,7 @@ fn one_par_run(case: &ParCase, cj: &Value, timeout: Duration) -> ParRun {
             format!("(crash exit {})", c)
         }
     };
-    ParRun { payload, class: ex.class(), failures, collections }
+    ParRun { payload, class: ex.class(), failures, collections, failed, counts, results }
 }
 
 const MAX_RUNS: usize = 8;
@@ -1138,12 +1191,17 @@ fn class_fingerprint(case: &ParCase, detail: &str) -> String {
 }
 
 /// One `par` case.  The schedule of the real run is not controllable, so a failing run (a
-/// property-oracle failure: always reported) is repeated — up to MAX_RUNS runs — and the payload of
-/// the first clean run is what the model has to reproduce; if no run is clean the failing payload
-/// is emitted (and then also disagrees with the model).
+/// property-oracle failure: always reported, every time) is repeated - up to MAX_RUNS runs - and
+/// the payload of the first clean run is what the model has to reproduce.  If no run is clean
+/// (under load the listed std.types race can fail 8 runs in a row) the run with the fewest failed
+/// threads is compared with the model on what its failures leave determined: the results of the
+/// threads that did not fail and the body counts of every module one of them requested
+/// (`masked_payload`, request with a `(failed …)` list).  Nothing is hidden by this: each failed
+/// thread, wrong count, hang or crash is an oracle failure with its own fingerprint.
 fn run_par(out: &mut Out, case: &ParCase, rng: &mut Rng, timeout: Duration) {
     let cj = case.to_json();
-    let req = par_request(case, rng);
+    let rng0 = rng.clone();
+    let req = par_request(case, rng, &[]);
     let n = case.progs.len();
     out.count(&format!("threads:{}", n));
     out.count(&format!("modules:{}", case.modules.len()));
@@ -1159,7 +1217,7 @@ fn run_par(out: &mut Out, case: &ParCase, rng: &mut Rng, timeout: Duration) {
         }
     }
     out.add("shared_module_requests", users.iter().filter(|u| **u >= 2).count() as u64);
-    let mut last = None;
+    let mut best: Option<ParRun> = None;
     for attempt in 0..MAX_RUNS {
         let r = one_par_run(case, &cj, timeout);
         out.count("par_runs");
@@ -1174,17 +1232,30 @@ fn run_par(out: &mut Out, case: &ParCase, rng: &mut Rng, timeout: Duration) {
         if !clean && attempt + 1 < MAX_RUNS {
             out.count("retried_after_failure");
         }
-        last = Some(r);
+        if clean || best.as_ref().map_or(true, |b| r.failed.len() < b.failed.len()) {
+            best = Some(r);
+        }
         if clean {
             break;
         }
     }
-    let r = last.unwrap();
+    let r = best.unwrap();
     out.class(format!("{}:{}", shape(case), r.class));
+    let (req, payload) = if r.failures.is_empty() {
+        out.count("par-compared:clean-run");
+        (req, r.payload.clone())
+    } else {
+        // a failure that is not a failed thread (a wrong count, a loader run twice) stays visible
+        // in the payload where the model determines it
+        out.count("par-compared:no-clean-run(surviving-threads-only)");
+        out.add("par-threads-not-compared", r.failed.len() as u64);
+        let mut rng1 = rng0;
+        (par_request(case, &mut rng1, &r.failed), masked_payload(case, &r))
+    };
     if out.n_cases % 9 == 2 {
-        out.sample(json!({"case": cj, "impl": r.payload}));
+        out.sample(json!({"case": cj, "impl": payload}));
     }
-    out.case(&req, &r.payload);
+    out.case(&req, &payload);
 }
 
 // ---------------------------------------------------------------------------------------------
@@ -1292,9 +1363,9 @@ fn run_locks(out: &mut Out, nth: usize, ops: &[LOp], iters: u64, timeout: Durati
     let req = format!("locks {} {}", nth, ops.iter().map(|o| o.sexp()).collect::<Vec<_>>().join(" "));
     // A deadlock needs the two threads to meet in a narrow window; a run in which they do not meet
     // says nothing.  Scenarios that contain a pair of operations taking two contexts in opposite
-    // orders (read off the code, independent of the Lean model) are therefore run up to 6 times
+    // orders (read off the code, independent of the Lean model) are therefore run up to 12 times
     // until a hang is seen; all others once.  What is reported is what was observed.
-    let attempts = if may_hang(ops) { 6 } else { 1 };
+    let attempts = if may_hang(ops) { 12 } else { 1 };
     let mut ex = run_child(&serde_json::to_vec(&cj).unwrap(), timeout);
     for _ in 1..attempts {
         let no_hang = matches!(&ex, gv::child::Exit::Ok(o) if !o.contains("\"hung\":true"));
